@@ -55,6 +55,23 @@ func (x *gg) v() *rt.Term {
 
 // val: a small domain so that duplicates and matches are frequent
 func (x *gg) val(vars bool) *rt.Term {
+	if x.p(12, "listval") {
+		// lists over a common prefix: open ones (the tail variable is usually shared with another argument
+		// or the body), and closed ones that match them
+		one, two := rt.I(1), rt.I(2)
+		switch k := x.n(0, 5, "lv"); {
+		case k < 2 && vars:
+			return rt.List([]*rt.Term{one, two}, x.v())
+		case k < 3:
+			return rt.List([]*rt.Term{one, two}, nil)
+		case k < 4:
+			return rt.List([]*rt.Term{one, two, rt.I(3)}, nil)
+		case k < 5:
+			return rt.List([]*rt.Term{rt.I(3)}, nil)
+		default:
+			return rt.A("[]")
+		}
+	}
 	switch k := x.n(0, 9, "val"); {
 	case k < 5:
 		return rt.I(int64(x.n(1, 3, "i")))
